@@ -19,13 +19,16 @@ import (
 
 // worldConfig is the per-case wiring choice; everything is a rapid draw.
 type worldConfig struct {
-	NFS         bool   `json:"nfs"`           // NFS handle allocator (deduplicates stateless leaves) or FUSE
-	Cache       string `json:"cache"`         // "none", "lru", "fifo"
-	CacheCount  int    `json:"cacheCount"`    // maximum number of cached directories
-	CacheBytes  int64  `json:"cacheBytes"`    // maximum total size
-	ShuffleSeed uint64 `json:"shuffle"`       // 0 = sorted initial contents
-	Actions     int    `json:"actions"`       // input roots merged next to each other
-	RootSubdir  bool   `json:"rootSubdir"`    // merge into <action>/root like LocalBuildExecutor, or into <action> directly
+	NFS         bool   `json:"nfs"`        // NFS handle allocator (deduplicates stateless leaves) or FUSE
+	Cache       string `json:"cache"`      // "none", "lru", "fifo"
+	CacheCount  int    `json:"cacheCount"` // maximum number of cached directories
+	CacheBytes  int64  `json:"cacheBytes"` // maximum total size
+	ShuffleSeed uint64 `json:"shuffle"`    // 0 = sorted initial contents
+	Actions     int    `json:"actions"`    // input roots merged next to each other
+	RootSubdir  bool   `json:"rootSubdir"` // merge into <action>/root like LocalBuildExecutor, or into <action> directly
+	// The bb_worker option case_insensitive (file names are compared
+	// after lower-casing; needed for Windows/macOS workers).
+	CaseInsensitive bool `json:"caseInsensitive,omitempty"`
 }
 
 func drawWorldConfig(rt *rapid.T) worldConfig {
@@ -37,6 +40,8 @@ func drawWorldConfig(rt *rapid.T) worldConfig {
 		ShuffleSeed: rapid.SampledFrom([]uint64{0, 0, 1, 7}).Draw(rt, "shuffle"),
 		Actions:     rapid.IntRange(1, 2).Draw(rt, "actions"),
 		RootSubdir:  rapid.Bool().Draw(rt, "rootSubdir"),
+
+		CaseInsensitive: rapid.IntRange(0, 3).Draw(rt, "caseInsensitive") == 0,
 	}
 }
 
@@ -78,6 +83,10 @@ func newWorld(c *fakeCAS, cfg worldConfig) *world {
 	}
 	w.fetcher = newDirectoryFetcher(c, cfg)
 	clk := &fixedClock{}
+	normalizer := virtual.CaseSensitiveComponentNormalizer
+	if cfg.CaseInsensitive {
+		normalizer = virtual.CaseInsensitiveComponentNormalizer
+	}
 	noDefaults := func(requested virtual.AttributesMask, attributes *virtual.Attributes) {}
 	characterDeviceFactory := virtual.NewHandleAllocatingCharacterDeviceFactory(virtual.BaseCharacterDeviceFactory, handleAllocator.New())
 	w.top = virtual.NewInMemoryPrepopulatedDirectory(
@@ -91,7 +100,7 @@ func newWorld(c *fakeCAS, cfg worldConfig) *world {
 		deterministicSorter(cfg.ShuffleSeed),
 		func(string) bool { return false },
 		clk,
-		virtual.CaseSensitiveComponentNormalizer,
+		normalizer,
 		noDefaults,
 		virtual.NoNamedAttributesFactory,
 	)
